@@ -137,7 +137,7 @@ func check(c Case, o *vf.Obs) error {
 }
 
 func genConfig(t *rapid.T, n int) (entry string, cert bool, nbmax int) {
-	entry = rapid.SampledFrom([]string{"slice", "slicenb", "cnf"}).Draw(t, "entry")
+	entry = rapid.SampledFrom([]string{"slice", "slicenb", "cnf", "cnf-commented"}).Draw(t, "entry")
 	cert = rapid.Bool().Draw(t, "cert")
 	switch rapid.IntRange(0, 4).Draw(t, "nbmaxSel") {
 	case 1:
